@@ -101,9 +101,11 @@ def callee_path(t):
 
 
 class Facts:
-    def __init__(self, path):
+    def __init__(self, path, canonical=True):
         with open(path) as fh:
             self.j = json.load(fh)
+        from . import canon
+        self.renames = canon.canonicalise(self.j) if canonical else []
         self.meta = self.j['meta']
         self.bodies = {}
         self.body_list = []
